@@ -132,6 +132,10 @@ def bootstrap_ci(
 
         ci = np.empty((metric_size, 2))
         for j in range(metric_size):
+            if nb_not_nan[j] == 0:
+                # No finite replicate: the limits are undefined, as for "quantile".
+                ci[j] = np.nan
+                continue
             ci[j] = np.nanquantile(
                 theta[:, j], q=[alpha_hat_lower[j], alpha_hat_upper[j]], axis=0
             )
